@@ -325,9 +325,8 @@ format_B = [mnemo, label]
 format_ADR = [mnemo, lambda i: TokenListJoin(", ", i.operands[0].toks() +
                                                    label_adr(i))]
 format_CBx = [mnemo, lambda i: TokenListJoin(", ",  i.t.toks() + label(i, 1))]
-format_CCMx = [mnemo, lambda i: TokenListJoin(", ", regs(i, 2)),
-                      lambda i: i.flags.toks(),
-                      condreg]
+format_CCMx = [mnemo, lambda i: TokenListJoin(", ", regs(i, 3) +
+                                                    [(Token.Literal, i.misc["cond"])])]
 
 ARM_V8_full_formats = {
     "A64_generic": format_default,
@@ -337,6 +336,7 @@ ARM_V8_full_formats = {
     "A64_B": format_B,
     "A64_CBx": format_CBx,
     "A64_CCMx": format_CCMx,
+    "A64_CCMx_reg": format_CCMx,
     "A64_CSx": [mnemo, lambda i: TokenListJoin(", ", regs(i, 3) + [condname(i)])],
     "ASRV": ["asr ", allregs],
     "LSLV": ["lsl ", allregs],
